@@ -122,6 +122,12 @@ class TypeState:
                 self.env[s.target.id] = self._eval(elt)
                 self._block(s.body)
             return
+        if isinstance(s, ast.For) and isinstance(s.iter, ast.Name) and isinstance(self.env.get(s.iter.id), tuple) and isinstance(s.target, ast.Name) and not s.orelse and not any(isinstance(x, (ast.Break, ast.Continue)) for b in s.body for x in ast.walk(b)):
+            # the same over a local that was bound to a literal sequence
+            for item in self.env[s.iter.id]:
+                self.env[s.target.id] = item
+                self._block(s.body)
+            return
         if isinstance(s, ast.Return):
             raise _Return(self._eval(s.value) if s.value is not None else NONE, s)
         if isinstance(s, ast.Raise):
